@@ -38,7 +38,7 @@ PROBES = [
     "week_crossing_jump", "timeline_exported", "tex_timeline_exported", "time_of_day_input",
     "ticks_ms", "ticks_seconds", "ticks_minutes", "ticks_hours", "ticks_days", "ticks_weeks",
     "ticks_months", "ticks_years", "nice_with_skip", "reversed_domain",
-    "jump_inside_domain", "outcome_raise_both", "outcome_timeout_both",
+    "jump_inside_domain", "outcome_raise_both", "outcome_timeout_both", "aware_inputs_run",
 ]
 
 RULE = (
@@ -403,6 +403,10 @@ def gen_plan(rng, tier):
         "clock": {"start": clock_start.isoformat(), "tick_s": rng.choice([0, 0, 0.5, 3600])},
         "ops": ops,
     }
+    if rng.random() < 0.05:
+        # "time zones are ignored": inputs that carry a tzinfo must be treated by
+        # their wall-clock fields, whatever the zone of the process
+        plan["aware"] = rng.choice([0, 120, -300, 330, 765])
     if tier == "thorough" and rng.random() < 0.003:
         plan["subprocess_crosscheck"] = True
     return plan
@@ -423,6 +427,16 @@ def _mk_scale(which):
     return None
 
 
+_AWARE = None  # minutes east of UTC attached to every input datetime of this execution, or None
+
+
+def _in(iso):
+    d = iso2dt(iso)
+    if _AWARE is not None:
+        d = d.replace(tzinfo=datetime.timezone(datetime.timedelta(minutes=_AWARE)))
+    return d
+
+
 def _exec_op(op, stats, all_dts):
     """Returns the raw outcome of one op (canonicalised by the caller)."""
     from labella.d3_time import d3_time
@@ -431,7 +445,7 @@ def _exec_op(op, stats, all_dts):
     kind = op[0]
     if kind == "iv":
         _, unit, m, d = op[:4]
-        d = iso2dt(d)
+        d = _in(d)
         all_dts.append(("in_" + m, d))
         iv = d3_time[unit]
         if m == "offset":
@@ -446,7 +460,7 @@ def _exec_op(op, stats, all_dts):
         return res
     if kind == "range":
         _, unit, a, b, step = op
-        a, b = iso2dt(a), iso2dt(b)
+        a, b = _in(a), _in(b)
         all_dts.append(("in_range", a))
         all_dts.append(("in_range", b))
         res = d3_time[unit].range(a, b, step)
@@ -455,7 +469,7 @@ def _exec_op(op, stats, all_dts):
         return res
     if kind == "scale":
         _, dom, rr, sub = op
-        dom = [iso2dt(dom[0]), iso2dt(dom[1])]
+        dom = [_in(dom[0]), _in(dom[1])]
         for x in dom:
             all_dts.append(("in_domain", x))
         s = TimeScale().domain(dom).range(list(rr))
@@ -463,7 +477,7 @@ def _exec_op(op, stats, all_dts):
         for so in sub:
             try:
                 if so[0] == "call":
-                    x = iso2dt(so[1])
+                    x = _in(so[1])
                     all_dts.append(("in_call", x))
                     out.append(s(x))
                 elif so[0] == "invert":
@@ -552,7 +566,7 @@ def _exec_timeline(op, stats, all_dts):
     _, backend, items, opts = op
     data = []
     for it in items:
-        d = {"time": decode_time(it["time"])}
+        d = {"time": _in(it["time"][1]) if it["time"][0] == "dt" else decode_time(it["time"])}
         if it["time"][0] == "t":
             stats["probe:time_of_day_input"] = stats.get("probe:time_of_day_input", 0) + 1
         elif it["time"][0] == "dt":
@@ -563,7 +577,7 @@ def _exec_timeline(op, stats, all_dts):
         data.append(d)
     options = {k: copy.deepcopy(v) for k, v in opts.items() if k != "scale"}
     if "domain" in options:
-        options["domain"] = [iso2dt(x) for x in options["domain"]]
+        options["domain"] = [_in(x) for x in options["domain"]]
     if opts.get("scale") == "own_time":
         options["scale"] = TimeScale()
     cls = TimelineSVG if backend == "svg" else TimelineTex
@@ -601,6 +615,8 @@ def execute_under(arg):
     plan, tz = arg["plan"], arg["tz"]
     if not arg.get("keep_stdout"):
         seams.silence_stdio()
+    global _AWARE
+    _AWARE = plan.get("aware")
     seams.set_tz(tz)
     # import-time state of the library must be computed under this zone, as it
     # would be in a process started with TZ in its environment
@@ -642,6 +658,8 @@ def _measure(op, all_dts, stats):
     for role, d in all_dts:
         if not isinstance(d, datetime.datetime):
             continue
+        if d.tzinfo is not None:
+            d = d.replace(tzinfo=None)  # measure the wall-clock fields the library works with
         try:
             off = (d.replace(fold=0) - EPOCH).total_seconds() - d.replace(fold=0).timestamp()
         except (OverflowError, OSError, ValueError):
@@ -698,6 +716,8 @@ def execute(plan):
     got = run_isolated(execute_under, {"plan": plan, "tz": plan["zone"]["tz"], "probe": True})
     st = got["stats"]
     counters = {"ops": len(plan["ops"]), "runs_executed": 1}
+    if plan.get("aware") is not None:
+        counters["probe:aware_inputs_run"] = 1
     for k, v in st.items():
         if k.startswith("probe:"):
             counters[k] = v
